@@ -6,7 +6,7 @@ LEVEL = "proof"
 
 
 def components():
-    return [comps_valid.ValidModel()]
+    return [comps_valid.ValidModel(), comps_valid.IdrefModel()]
 
 
 def oracles_():
@@ -23,9 +23,11 @@ TRUSTED = [
 
 ASSUMPTIONS = [
     "C02_validate_iff_rfc_partial / C02_error_class speak about FRESH trees (every node flagged LYD_NEW, none LYD_DEFAULT, no "
-    "non-presence container without children: what a parser builds from a document without empty containers), about "
-    "schemas that satisfy vschema_ok (checked on every generated schema by the correspondence run), and about the modelled "
-    "rule set only (no when / must / leafref / instance-identifier, no LYD_VALIDATE_* options, one module)",
+    "non-presence container without children: what a parser builds from a document without empty containers), "
+    "C02_history_iff_rfc_partial about trees that satisfy hist_ok (the un-flagged nodes were validated before, no LYD_DEFAULT "
+    "flags, no case replacement) with values of their types and list entries with their keys; both about schemas that "
+    "satisfy vschema_ok (checked on every generated schema by the correspondence run) and about the modelled rule set only "
+    "(no when / must / leafref / instance-identifier, one module); C02_multi_error_first has no hypothesis",
     "type restrictions are a parameter (type_ok): the slices types / restrict / regex prove them; the parser's own checks "
     "(value of the type, list keys) are modelled as a pre-pass on the tree, the document level (unknown elements, key order "
     "in XML) is not",
@@ -46,29 +48,48 @@ MANIFEST = {
             "impl_parse_validate = Ok <-> rfc_valid), C02_error_sound / C02_error_class (an error of class e only when rule class "
             "e is violated; exactly one class violated -> that class with its RFC 7950 section 15 app-tag), "
             "C02_verdict_perm_invariant (rfc_valid, and the verdict on fresh trees, are invariant under any permutation of "
-            "siblings at every level), C02_validate_iff_rfc_refuted (arbitrary flags: an UN-FLAGGED duplicate is accepted - "
+            "siblings at every level), C02_history_iff_rfc_partial (a tree whose un-flagged part was validated before - hist_ok - "
+            "and whose flagged nodes are arbitrary: lyd_validate_module = Ok <-> rfc_valid of the content; a new node is checked "
+            "against ALL siblings), C02_multi_error_first / _verdict (impl_validate_multi, the code with every return on a "
+            "validation error replaced by record-and-continue: for EVERY tree the first logged error is the error of the plain "
+            "run, so accept / reject does not depend on LYD_VALIDATE_MULTI_ERROR), C02_identityref_all_bases (one type predicate: "
+            "identityref_check_base / lyplg_type_identity_isderived accept exactly the identities derived transitively from ALL "
+            "bases, for acyclic base statements; component idrefmodel ties it on random identity hierarchies over two "
+            "modules), C02_validate_iff_rfc_refuted (arbitrary flags: an UN-FLAGGED duplicate is accepted - "
             "validation is incremental; since 06232b2 the public insert functions set the flag), C02_regressions (the witnesses "
             "of the fixed findings unique-default-not-in-use and stale-nested-default-case now behave as the RFC says). Tie: "
             "component validmodel runs lyd_validate_module and the extracted impl_validate / rfc_valid on the same trees (the "
             "dump of a LYD_PARSE_ONLY parse with flags, and of trees edited through the API - new path, free, change, move "
             "between list entries, duplicate + insert - and validated again): verdict, error class and app-tag must be equal, "
             "rfc_valid must agree with the verdict (for edited trees: of the resulting explicit content), its violated rules "
-            "with an independent Python reading of the RFC. Oracle validmut: valid instance + one mutation per rule class (also "
+            "with an independent Python reading of the RFC; every fresh tree is validated a second time with "
+            "LYD_VALIDATE_MULTI_ERROR (libyang reports the LAST logged error = last element of impl_validate_multi); histories: "
+            "the valid instance parsed with LYD_PARSE_NO_NEW (validated state, no implicit nodes), nodes added by lyd_new_term / "
+            "lyd_new_list2 / lyd_new_path / dup+insert / change, then validated (hist_ok is evaluated on each, and the history "
+            "theorem re-checked). Oracle validmut: valid instance + one mutation per rule class (also "
             "must / when on nodes, choices and cases / leafref / instance-identifier) through XML, JSON, LYB, shuffled siblings, "
             "parse+validate, parse-only + validate, lyd_new_path + validate, lyd_free_tree on the validated valid instance + "
             "validate: every route gives the verdict and class expected by construction; duplicates next to leaf-list values "
             "whose node hashes collide; lists with several unique statements, 3+ entries and incomplete earlier sets; the "
             "witnesses of the fixed findings as regression cases.",
-    "note": "PARTIAL. In Coq: the XPath-free fragment only; when / must / leafref / instance-identifier require-instance, "
-            "config/state placement (LYD_PARSE_NO_STATE / LYD_VALIDATE_NO_STATE) and a node disabled by if-feature are covered by "
-            "the oracle (by construction), not by the models; input/output placement (RPC / action trees) is not covered. Fresh "
-            "trees only (arbitrary flags: the refuted theorem); trees with explicit empty non-presence containers are outside the "
-            "theorem (covered by the correspondence run). The validation diff, LYD_VALIDATE_NO_STATE / OPERATIONAL / MULTI_ERROR, "
-            "RPC / notification validation, extension data (schema-mount, structure), several modules are not modelled. The "
-            "implicit default nodes are not materialised (WithDefaults slice): schemas where a leaf-list has both defaults and "
-            "min/max-elements are excluded. The children_ht path and the linear path of lyd_validate_duplicates are one model "
-            "function. Known findings: instid-notfound-rc, empty-np-container-dupcase, lyb-when-not-evaluated; fixed: "
-            "moved-node-dup-unchecked (06232b2), unique-default-not-in-use (ba1198e), stale-nested-default-case (357db45).",
+    "note": "PARTIAL - what C02_validate_iff_rfc_partial / C02_history_iff_rfc_partial leave out of the full statement: (a) RULES: "
+            "when, must, leafref and instance-identifier require-instance, and the type restrictions themselves (a parameter "
+            "type_ok) are not in the Coq models - the oracle covers them by construction (incl. every built-in type, "
+            "identityref with 1-3 bases, if-feature, state placement); input/output placement (RPC / action) is not covered at "
+            "all. (b) TREES: the theorems need hist_ok - the nodes NOT flagged LYD_NEW were validated before (no duplicates, one "
+            "case per choice among them), no node is flagged LYD_DEFAULT, new data do not sit in another case than old data - "
+            "fresh trees (everything flagged, what a parser builds) are the special case; outside are the auto-deletions "
+            "(defaults, old case replaced by a new one: there validation edits the tree and the verdict is about the result - "
+            "modelled in ValidateImpl and tied by the correspondence run, not in a theorem), un-flagged duplicates (refuted "
+            "theorem: only reachable by manipulating flags or links directly) and explicit empty non-presence containers "
+            "(finding empty-np-container-dupcase). (c) OPTIONS / ENTRY POINTS: LYD_VALIDATE_MULTI_ERROR is modelled "
+            "(impl_validate_multi; C02_multi_error_first holds for every tree); NO_STATE, OPERATIONAL, NO_DEFAULTS, NOT_FINAL, the "
+            "validation diff, RPC / notification / extension-data validation, several modules are not. (d) the implicit default "
+            "nodes are not materialised (WithDefaults slice): schemas where a leaf-list has both defaults and min/max-elements "
+            "are excluded; the children_ht and the linear path of lyd_validate_duplicates are one model function; the document "
+            "level (unknown elements, XML key order) is not modelled. Known findings: instid-notfound-rc, "
+            "empty-np-container-dupcase, lyb-when-not-evaluated; fixed: moved-node-dup-unchecked (06232b2), "
+            "unique-default-not-in-use (ba1198e), stale-nested-default-case (357db45).",
     "technique": "Coq proof about a transcribed functional model against an RFC-derived specification + differential "
                  "correspondence on libyang trees (with flags) + metamorphic / by-construction API oracle",
 }
